@@ -45,6 +45,7 @@ def _cfg(tier):
 def _case(draw, tier):
     c = draw(query_case(_cfg(tier)))
     c["neg_spelling"] = draw(st.sampled_from(["not_", "not_", "~", "desc"]))
+    c["abandon_first"] = draw(st.sampled_from([0, 0, 1, 1, 2]))
     return c
 
 
@@ -129,7 +130,20 @@ def check(case) -> Outcome:
                 built = build_query(case, objs, negate_desc=k)
             else:
                 built = build_query(case, objs, negate=k, neg_form=sp)
+            if case.get("abandon_first"):
+                # an evaluation abandoned after a few results must not change what the next one returns (C04 for
+                # negated conditions: De Morgan rewrites build operators with result caches of their own)
+                it = built.q.evaluate()
+                for _ in range(case["abandon_first"]):
+                    if next(it, None) is None:
+                        break
+                it.close()
             got = rows_of(built, list(built.q.evaluate()))
+            again = rows_of(built, list(built.q.evaluate()))
+            if compare_sets(got, again, True):
+                return fail("reevaluation_differs", f"{k} outer negation(s) [{sp}] of {A.r_cond(cond)}: first full "
+                                                    f"evaluation {got}, second {again}", nontrivial=nontrivial,
+                            classes=classes, features=feats + [f"outer_neg{k}"])
         except Exception as e:
             return fail("exception", f"{k} negation(s) [{sp}]: {type(e).__name__}: {e}", nontrivial=nontrivial,
                         classes=classes, features=feats + [f"outer_neg{k}"])
